@@ -157,7 +157,9 @@ func (s *OnDiskAggTrigger) Fire(keyPath string, records []trigger.Record) {
 			return
 		}
 
-		cs = io.ColumnSeriesUnion(cs, &c.cs)
+		// the right operand wins on duplicate epochs: the just-written records
+		// must override the cached ones
+		cs = io.ColumnSeriesUnion(&c.cs, cs)
 
 		s.write(tbk, cs, tail, head, elements)
 
